@@ -179,6 +179,9 @@ def check_value(v, origin):
 
 
 def cases(tier, seed):
+    from checks.insitu import insitu_cases
+
+    yield from insitu_cases(tier, seed)
     n = 160 if tier == "quick" else 4000
     for i in range(n):
         yield {"label": "values", "seed": seed * 1000003 + i, "n": 400, "kind": "random"}
@@ -188,6 +191,10 @@ def cases(tier, seed):
 
 
 def run_case(case):
+    if case.get("kind") == "insitu":
+        from checks.insitu import run_insitu
+
+        return run_insitu(case, PROP)
     rng = random.Random(case["seed"])
     viol = []
     counts = {"roundtrip": 0, "rejected": 0, "violation": 0, "skipped": 0, "rejected-recursion": 0}
@@ -238,4 +245,4 @@ if __name__ == "__main__":
     sys.exit(harness.main_for("checks.c15", PROP, "exploration", RULE,
                               ["canon() is the equality oracle (exact types at every level; Decimal compared by its string form; datetime by isoformat+utcoffset+fold)",
                                "subclasses (IntEnum, namedtuple, OrderedDict, bytearray) are outside the stated grammar and not generated"],
-                              {"values_roundtripped": 20000}))
+                              {"values_roundtripped": 20000, "insitu_contract_evaluations_serialize": 50}))
